@@ -29,6 +29,41 @@ Set Printing Depth 1000000.
 
 
 # ------------------------------------------------------------------------------------ scenarios
+
+def sprinkle_unset(r, f, p=0.25):
+    """returns a copy of family literal f in which some setters are skipped (pvlib.UNSET): the field then reads as the data
+    model's default in both builds - exactly the reads `c16_defaults` is about"""
+    import copy
+    g = copy.deepcopy(f)
+    def u(x): return UNSET if r.random() < p else x
+    g["help"] = u(g["help"]); g["type"] = u(g["type"])
+    if r.random() < p * 0.4: g["name"] = UNSET
+    for m in g["metrics"]:
+        for k in ("gauge", "counter", "untyped"):
+            if m[k] is not None: m[k] = u(m[k])
+        if m["hist"] is not None:
+            h = m["hist"]; h["count"] = u(h["count"]); h["sum"] = u(h["sum"]); h["b"] = [(u(c), u(b)) for c, b in h["b"]]
+        if m["summary"] is not None:
+            q = m["summary"]; q["count"] = u(q["count"]); q["sum"] = u(q["sum"]); q["q"] = [(u(a), u(b)) for a, b in q["q"]]
+    return g
+
+
+def defaulted(f):
+    """the same family with every UNSET replaced by the default value (what both builds must read)"""
+    import copy
+    g = copy.deepcopy(f)
+    z = f64(0.0)
+    def d(x, dv): return dv if x == UNSET else x
+    g["name"] = d(g["name"], ""); g["help"] = d(g["help"], ""); g["type"] = d(g["type"], "COUNTER")
+    for m in g["metrics"]:
+        for k in ("gauge", "counter", "untyped"):
+            if m[k] is not None: m[k] = d(m[k], z)
+        if m["hist"] is not None:
+            h = m["hist"]; h["count"] = d(h["count"], 0); h["sum"] = d(h["sum"], z); h["b"] = [(d(c, 0), d(b, z)) for c, b in h["b"]]
+        if m["summary"] is not None:
+            q = m["summary"]; q["count"] = d(q["count"], 0); q["sum"] = d(q["sum"], z); q["q"] = [(d(a, z), d(b, z)) for a, b in q["q"]]
+    return g
+
 def custom_scenario(r):
     """one or two custom collectors handing out literal families (names made distinct per collector so that the
     HashMap order of the collectors cannot matter), registered on 1-2 registries, collected and gathered"""
@@ -47,6 +82,8 @@ def custom_scenario(r):
             g = p_C04.gen_family(r, [], True, 0.0)
             g["name"] = fams[0]["name"]; g["type"] = fams[0]["type"]
             fams.append(g)
+        if r.random() < 0.5:
+            fams = [sprinkle_unset(r, f) if r.random() < 0.7 else f for f in fams]
         cols.append(s.emit("OpCustom", [("cust%d" % ci, "h", [], [])], fams))
     prefix = r.choice([None, None, "p", "ns_1"])
     labels = r.choice([None, None, [("zone", "eu"), ("c1", "1")], [("env", "é")]])
@@ -69,7 +106,13 @@ def defaults_scenario():
     fams = [mk_family("u", "", "COUNTER", [mk_metric(labels=[("l", "")])]),
             mk_family("v", "", "HISTOGRAM", [mk_metric(), mk_metric(ts=0), mk_metric(ts=-7)]),
             mk_family("w", "x", "SUMMARY", [mk_metric(gauge=f64(1.0))]),
-            mk_family("y", "", "GAUGE", [mk_metric(counter=f64(3.0))])]
+            mk_family("y", "", "GAUGE", [mk_metric(counter=f64(3.0))]),
+            # setters never called: name / help / type / payload fields read as defaults in both builds
+            mk_family("t0", UNSET, UNSET, [mk_metric(counter=UNSET), mk_metric(labels=[("a", "b")], counter=f64(2.0))]),
+            mk_family("t1", "h", UNSET, [mk_metric(gauge=f64(4.0))]),
+            mk_family("t2", UNSET, "HISTOGRAM", [mk_metric(hist=dict(count=UNSET, sum=UNSET, b=[(UNSET, f64(1.0)), (3, UNSET)]))]),
+            mk_family("t3", "h", "SUMMARY", [mk_metric(summary=dict(count=UNSET, sum=f64(1.5), q=[(UNSET, f64(2.0)), (f64(0.5), UNSET)]))]),
+            mk_family(UNSET, "h", "GAUGE", [mk_metric(gauge=UNSET)])]
     cu = s.emit("OpCustom", [("cust", "h", [], [])], fams)
     reg = s.emit("OpRegistry", None, None)
     for x in (c, g, h, cu): s.emit("OpRegister", reg, x)
@@ -93,7 +136,16 @@ def gen_seq(r, tier):
 
 def gen_enc(r, tier):
     n = 200 if tier == "quick" else 3000
-    return [p_C04.gen_scenario(r) for _ in range(n)]
+    out = []
+    for i in range(n):
+        sc = p_C04.gen_scenario(r)
+        if i % 4 == 0:
+            # same families with some setters skipped on the wire; the model / number tables see the defaults
+            wire = [sprinkle_unset(r, f) for f in sc["fams"]]
+            sc["wire_fams"] = wire
+            sc["fams"] = [defaulted(f) for f in wire]
+        out.append(sc)
+    return out
 
 
 # ------------------------------------------------------------------------------------ reading gathered families back
@@ -176,7 +228,7 @@ def gathered_of(obs_line):
 
 # ------------------------------------------------------------------------------------ helpers
 def e2_lines(sc):
-    fams = " ".join(w_list(w_family)(sc["fams"]))
+    fams = " ".join(w_list(w_family)(sc.get("wire_fams", sc["fams"])))
     return ["E text -1 - " + fams, "E string -1 - " + fams]
 
 
